@@ -132,9 +132,9 @@ def blame(o, t: Ty, accepts, style: int = 0) -> str:
         isinstance(o, tuple) or t.kind not in ("Cls", "Lit", "NoneT", "NewType", "TypedDict")
     ):
         # the term contains a PEP 646 unpacked tuple: every route mis-parses or mis-matches those (one mechanism)
-        return "MixTuple<-tuple/" + ("Unpack-spelling" if style == 1 else "star-spelling")
+        return "MixTuple<-tuple"
     if t.kind == "MixTuple":
-        extra = "/" + ("Unpack-spelling" if style == 1 else "star-spelling")
+        extra = ""
     if t.kind == "TypedDict" and isinstance(o, dict):
         declared = {n for n, _ in t.args[0]}
         extra = "/extra-keys" if set(o) - declared else "/declared-keys"
